@@ -56,26 +56,26 @@ type cTarget struct{ kind, idx int }
 
 type cSlot struct {
 	kind    int
-	client  int // planned creator
+	client  int  // planned creator
 	tried   bool // the creating operation has run (n == nil afterwards: it was refused)
 	n       *node
 	planned struct{ peer, proto, svc int } // how many Set* calls the plan contains for it
 }
 
 type cOp struct {
-	kind, client  int
-	tgt           cTarget // holder operated on; for the creating operations: the slot created
-	in, fd        bool
-	ep, peer      int
-	proto, svc    int
-	size          int64
-	prio          uint8
-	resv          *cOp // coRelease: the reservation (partly) released
-	dur           time.Duration
-	planReleased  int64 // plan time: how much of a reservation later releases take back
-	done, ok      bool
-	overlapped    bool
-	outcome       string
+	kind, client int
+	tgt          cTarget // holder operated on; for the creating operations: the slot created
+	in, fd       bool
+	ep, peer     int
+	proto, svc   int
+	size         int64
+	prio         uint8
+	resv         *cOp // coRelease: the reservation (partly) released
+	dur          time.Duration
+	planReleased int64 // plan time: how much of a reservation later releases take back
+	done, ok     bool
+	overlapped   bool
+	outcome      string
 }
 
 type cPlan struct {
